@@ -40,7 +40,7 @@ def case_strategy(draw, tier):
     rec, opts = draw(gen.hyd_case(max_n=9 if tier == "quick" else 25, tight=True, allow_ctrl=draw(st.booleans())))
     opts["mode"] = "hydraulics"
     # one case in three is calculated on a net object with a history (see recipe.solve_after_prelude)
-    prelude = draw(st.sampled_from([None, None, None, None] + PRELUDES[:3] * 2 + PRELUDES[3:]))
+    prelude = draw(st.sampled_from([None, None, None, None] + PRELUDES[:3] * 2 + PRELUDES[3:] + PRELUDES[5:]))
     return {"recipe": rec, "options": opts, "prelude": prelude}
 
 
